@@ -199,3 +199,34 @@ func TestF5WildcardMapAtQueriedName(t *testing.T) {
 		}
 	}
 }
+
+// F15: ECS address with host bits set beyond the source prefix length.
+func TestF15EcsHostBits(t *testing.T) {
+	data := "Zexample.com,a.ns.example.com,dns.example.com,1,7200,1800,604800,120,120,,\n&example.com,,a.ns.example.com,172800,,\n" +
+		"+www.example.com,1.1.1.1,60,,\\000\\001\n+www.example.com,2.2.2.2,60,,\\000\\002\n+www.example.com,3.3.3.3,60,,\\000\\003\n+www.example.com,9.9.9.9,60,,\n" +
+		"8example.com,ea\n8*.example.com,ea\n%\\000\\001,10.1.0.0/16,ea\n%\\000\\002,10.1.2.0/24,ea\n%\\000\\003,10.1.3.0/24,ea\n"
+	bs := build(t, data)
+	for _, ecs := range []string{"10.1.3.0/23", "10.1.2.0/23", "10.1.3.77/24", "10.1.3.77/16", "10.1.255.255/12"} {
+		// MakeOPTWithECS keeps the address as given (host bits included)
+		got := same(t, bs, "A", "www.example.com", "9.9.9.9", ecs)
+		t.Logf("%s -> %s", ecs, strings.ReplaceAll(got, "\n", " | "))
+	}
+}
+
+// F12: subnets whose network address is 0.0.0.0 but which are not /0.
+func TestF12ZeroNetworkNotDefault(t *testing.T) {
+	data := "Zexample.com,a.ns.example.com,dns.example.com,1,7200,1800,604800,120,120,,\n&example.com,,a.ns.example.com,172800,,\n" +
+		"+www.example.com,1.1.1.1,60,,\\000\\001\n+www.example.com,2.2.2.2,60,,\\000\\002\n+www.example.com,3.3.3.3,60,,\\000\\003\n+www.example.com,9.9.9.9,60,,\n" +
+		"8example.com,ea\n8*.example.com,ea\nMexample.com,ma\nM*.example.com,ma\n" +
+		"%\\000\\001,0.0.0.0/8,ea\n%\\000\\002,10.0.0.0/8,ea\n" +
+		"%\\000\\001,0.0.0.0/1,ma\n%\\000\\003,128.0.0.0/1,ma\n%\\000\\002,10.0.0.0/8,ma\n"
+	bs := build(t, data)
+	for _, ecs := range []string{"11.1.1.0/24", "0.1.1.0/24", "10.1.1.0/24", "200.1.1.0/24", "9.0.0.0/8"} {
+		got := same(t, bs, "A", "www.example.com", "9.9.9.9", ecs)
+		t.Logf("ecs %s -> %s", ecs, strings.ReplaceAll(got, "\n", " | "))
+	}
+	for _, ip := range []string{"11.1.1.1", "0.1.1.1", "10.1.1.1", "200.1.1.1", "127.0.0.1", "128.0.0.1"} {
+		got := same(t, bs, "A", "www.example.com", ip, "")
+		t.Logf("resolver %s -> %s", ip, strings.ReplaceAll(got, "\n", " | "))
+	}
+}
